@@ -14,7 +14,7 @@ MODEL_OK = "C09.model_ok"
 SPEC_OK = "C09.spec_ok"
 EXHAUSTIVE = {"quick": False, "thorough": True}
 SHARD = 400
-RULE = ("small scope: every run layout with <= 3 runs of 0..3 characters (85 layouts incl. no runs and empty runs, "
+RULE = ("small scope: every run layout with <= 3 runs of 0..3 characters and every layout with 4 runs of 0..2 characters (166 layouts incl. no runs and empty runs, "
         "distinct characters and attributes per run) x 8 replacement values (str, '' , multi-run FmtStr, FmtStr() "
         "without runs, FmtStr with only an empty run, FmtStr with an empty run first / in the middle) x every "
         "0 <= start <= end <= len+2 and end omitted (thorough: all; quick: a seeded sample), so start and end fall on, "
@@ -34,7 +34,7 @@ ASSUMPTIONS = ["0 <= start <= end (end omitted = start), as the property's quant
                "modelled and compared with the implementation but no theorem speaks about them",
                "a plain str replacement does not contain ESC[ (it goes through fmtstr(), whose parser is C05/C17)"]
 
-ATTS = [[2, 0, 0, 0, 0, 0, 0, 0], [0, 5, 1, 0, 0, 0, 0, 0], [3, 0, 0, 0, 1, 2, 0, 0]]
+ATTS = [[2, 0, 0, 0, 0, 0, 0, 0], [0, 5, 1, 0, 0, 0, 0, 0], [3, 0, 0, 0, 1, 2, 0, 0], [0, 0, 0, 0, 0, 0, 0, 0]]
 LETTERS = "abcdefghi"
 Z8 = [0] * 8
 NEWS = [["str", "XY"], ["str", ""], ["str", "Z"],
@@ -45,8 +45,8 @@ NEWS = [["str", "XY"], ["str", ""], ["str", "Z"],
         ["fs", [["T", Z8], ["", [0, 2, 0, 0, 0, 0, 0, 0]], ["U", [8, 0, 0, 0, 0, 0, 1, 0]]]]]
 
 
-def layouts(maxruns=3, maxlen=3):
-    for k in range(maxruns + 1):
+def layouts(maxruns=3, maxlen=3, minruns=0):
+    for k in range(minruns, maxruns + 1):
         for lens in itertools.product(range(maxlen + 1), repeat=k):
             runs, pos = [], 0
             for i, n in enumerate(lens):
@@ -74,7 +74,8 @@ def rand_operand(rng):
 
 def generate(rng, tier):
     thorough = tier == "thorough"
-    lays = list(layouts())
+    # 85 layouts with <= 3 runs of <= 3 characters + 81 layouts with 4 runs of <= 2 characters
+    lays = list(layouts()) + list(layouts(4, 2, 4))
     # 1. splice, small scope, inside the quantifier
     sp = []
     for runs in lays:
@@ -287,7 +288,7 @@ LEVEL_TEXT = ("Machine-checked theorem (Coq) for ALL FmtStrs (any number of runs
               "the end; setslice_with_length/setitem are characterised (padding, AssertionError, ValueError) on top. The "
               "model follows divides, the zip over run boundaries, the four-branch case split with the `inserted` flag, the "
               "early return and the final filter of empty runs, and is compared in Coq with the real implementation on "
-              "the complete small scope (85 layouts x 8 replacements x all start <= end <= len+2, end omitted) in the "
+              "the complete small scope (166 layouts x 8 replacements x all start <= end <= len+2, end omitted) in the "
               "thorough tier and a seeded sample in the quick tier, plus random larger cases and calls outside the quantifier")
 LEVEL_NOTE = ("Trusted: Coq kernel+vm_compute, the reference list semantics Spec/ListOps.v, the canonicaliser. Modelled not "
               "verified: built-in str slicing, zip, list extend, chained comparison. 'f itself is unchanged' is observed by "
